@@ -373,6 +373,16 @@ func (t *runTracer) probe(point string, g *hermes.GlobalVarsMain, extra ...inter
 		e["FRUCHT"] = fr
 		e["IRRST1"], e["IRRST2"], e["IRRMAX"] = fxs("IRRST1", g.IRRST1[:nr], 3), fxs("IRRST2", g.IRRST2[:nr], 3), fxs("IRRMAX", g.IRRMAX[:nr], 3)
 		e["mess"] = g.MESS[0]
+		// the effective configuration of the run (every scalar key, canonical rendering)
+		all := map[string]string{}
+		cv := reflect.ValueOf(*cfg)
+		for i := 0; i < cv.NumField(); i++ {
+			switch cv.Field(i).Kind() {
+			case reflect.Float64, reflect.Int, reflect.String, reflect.Bool:
+				all[cv.Type().Field(i).Name] = canon(cv.Field(i))
+			}
+		}
+		e["cfgAll"] = all
 	case "day.top":
 		zeit := extra[0].(int)
 		e["zeit"] = zeit
